@@ -1,6 +1,7 @@
 import ComposeVerif.Ops.Common
 import ComposeVerif.Model.Interp
 import ComposeVerif.Spec.Interp
+import ComposeVerif.Model.InterpCustom
 import ComposeVerif.Gen.Tables
 /-! line-protocol ops for C08: `interpolate` (model of interpolation.Interpolate with the regenerated cast
 table), `c08casters` (the integer / boolean casters alone), `c08escape` (the `$`→`$$` rewriting of the spec) -/
@@ -42,7 +43,9 @@ def castersOp : Handler := fun args =>
   Json.mkObj [
     ("int", match parseInt s with | some i => Json.str (ToString.toString i) | none => Json.null),
     ("bool", match parseBool s with | some b => Json.bool b | none => Json.null),
-    ("yamlint", match yamlInt s with | some i => Json.str (ToString.toString i) | none => Json.null)]
+    ("yamlint", match yamlInt s with | some i => Json.str (ToString.toString i) | none => Json.null),
+    ("devicecount", match decodeDeviceCount s with | some i => Json.str (ToString.toString i) | none => Json.null),
+    ("bytes", Json.arr #[Json.str (unitBytesClass s).1, Json.str (unitBytesClass s).2])]
 
 def handlers : List (String × Handler) := [("interpolate", interpolateOp), ("c08casters", castersOp)]
 
